@@ -53,6 +53,15 @@ def call_src(op, ps, callee_params):
     return txt
 
 
+def icall_src(op, ps, callee_params):
+    """["icall", spacepath, keyargs, cellsname, args, spelling]  ->  P[k].c(a) / P(k).c(a)"""
+    spath, kargs, cname, args, sp = op[1], op[2], op[3], op[4], op[5]
+    ktxt = ", ".join(arg_src(a, ps) for a in kargs)
+    base = ".".join(spath)
+    item = "%s(%s)" % (base, ktxt) if sp == "call" else "%s[%s]" % (base, ktxt)
+    return "%s.%s(%s)" % (item, cname, ", ".join(arg_src(a, ps) for a in args))
+
+
 def render(frec, name, sigs=None):
     """Return Python source of formula record `frec` for a cells called `name`.
 
@@ -72,6 +81,9 @@ def render(frec, name, sigs=None):
             elif op[0] == "call":
                 terms.append("(lambda _t: %d if _t is None else _t)(%s)" % (
                     NONE_CONTRIB, call_src(op, ps, sigs.get(op[1][-1]))))
+            elif op[0] == "icall":
+                terms.append("(lambda _t: %d if _t is None else _t)(%s)" % (
+                    NONE_CONTRIB, icall_src(op, ps, None)))
             else:
                 raise ValueError("op %r not expressible in a lambda" % (op,))
         return "lambda %s: %s" % (params_src(ps), " + ".join(terms))
@@ -91,6 +103,9 @@ def render(frec, name, sigs=None):
         elif op[0] == "call":
             body.append(pre + "_t = %s; _a += (%d if _t is None else _t)" % (
                 call_src(op, ps, sigs.get(op[1][-1])), NONE_CONTRIB))
+        elif op[0] == "icall":
+            body.append(pre + "_t = %s; _a += (%d if _t is None else _t)" % (
+                icall_src(op, ps, None), NONE_CONTRIB))
         elif op[0] == "raise":
             body.append(pre + 'raise ValueError("E%d")' % op[1])
         elif op[0] == "none":
